@@ -92,6 +92,11 @@ CHECKS['C04'] = ('model_checking', '§5 C04',
     'Error classes are not compared, only acceptance. A supplied type without a literal witness is only supplied as a parameter. Where two callables have identical component types but different optional-parameter windows the common type is treated as unspecified.',
     'bounded-exhaustive enumeration of type pairs / tuples vs reference relation')
 
+CHECKS['C05'] = ('model_checking', '§5 C05',
+    'Every set of 1-3 same-named user overloads (thorough: all sets of 4 and every 37th set of 5-6) from an alphabet of 19 signatures (11 non-generic incl. optional parameters and the empty list, 8 generic incl. two parameters, container-of-T and optional parameters) x every declaration order (all permutations up to 3) x 4 placements over scope levels (flat, call in a nested function, set split between levels, all nested) x 3 alpha-renamings of generic / value parameters (incl. a generic parameter named like a visible struct) x an added overload that can never match; plus 3 standard-library names (abs, len, push) with 0-2 user overloads; every call tuple of a 16-tuple pool. Reference: matching non-generic candidates, else matching generic ones; exactly one runs (each body returns its own tag), several = AmbiguousOverload, none = NoOverload. Calls whose argument types contain the bottom type have no reference outcome (outside the stated quantifier) and are checked for stability only: same outcome for every order, placement and renaming of one set.',
+    'Dynamic (factory) overloads are left out of the candidate sets: the chosen names have none that can match the pool.',
+    'bounded-exhaustive enumeration of overload sets and call sites vs reference resolver + metamorphic stability')
+
 NA = {
 }
 
